@@ -177,12 +177,19 @@ fn check_e1206_relation_has_no_missing_shift_properties(
                 .map(|vehicle_shift| (vehicle_shift, relation))
         })
         .filter(|(vehicle_shift, relation)| {
-            relation.jobs.iter().filter(|job_id| is_reserved_job_id(job_id)).any(|job_id| match job_id.as_str() {
-                "break" => vehicle_shift.breaks.is_none(),
-                "reload" => vehicle_shift.reloads.is_none(),
-                "arrival" => vehicle_shift.end.is_none(),
-                _ => false,
-            })
+            let count_ids = |id: &str| relation.jobs.iter().filter(|job_id| job_id.as_str() == id).count();
+            // NOTE: only optional breaks are represented by jobs which relation can refer to
+            let breaks = vehicle_shift
+                .breaks
+                .iter()
+                .flatten()
+                .filter(|vehicle_break| matches!(vehicle_break, VehicleBreak::Optional { .. }))
+                .count();
+            let reloads = vehicle_shift.reloads.as_ref().map_or(0, |reloads| reloads.len());
+
+            count_ids("break") > breaks
+                || count_ids("reload") > reloads
+                || (count_ids("arrival") > 0 && vehicle_shift.end.is_none())
         })
         .map(|(_, relation)| relation.vehicle_id.clone())
         .collect::<Vec<_>>();
